@@ -26,6 +26,17 @@
 (*            nothing the adapter could trace                              *)
 (*   fb       "custom" (a block fallback is configured) | "default"        *)
 (*   outcome  "ok" | "err" | "panic"   what the handler does when invoked  *)
+(*   layer    where an error of the wrapped call arises ("node" unless     *)
+(*            outcome = "err").  For a client-side entry point the         *)
+(*            "handler" is the WHOLE downstream call, and the framework    *)
+(*            can fail it at several layers: "pre" = before a node is      *)
+(*            called (service unknown to the registry, no node available,  *)
+(*            context already cancelled / past its deadline, backoff       *)
+(*            hook), "node" = by the selected node / the handler itself,   *)
+(*            "post" = after the node returned (retry hook).  THE CONTRACT *)
+(*            DOES NOT DEPEND ON THE LAYER: any error the wrapped call     *)
+(*            returns to the adapter is traced on the entry, which is      *)
+(*            exited exactly once (ComplOK below never reads cls.layer)    *)
 (*   side     "server" | "client"  what the entry point IS (its API): a    *)
 (*            server-side middleware / interceptor / handler wrapper       *)
 (*            guards INBOUND traffic, a client-side interceptor / wrapper  *)
@@ -57,6 +68,9 @@ EXTENDS Integers, Sequences, FiniteSets, TLC
 
 Outcomes == {"ok", "err", "panic"}
 Sides    == {"server", "client"}
+Layers   == {"pre", "node", "post"}
+\* a class is well formed: only an error has a layer other than the handler ("node") itself
+LayerOK(cls) == cls.layer \in Layers /\ (cls.layer # "node" => cls.outcome = "err")
 SysStates == {"none", "slack", "violated"}
 
 \* the decision the contract fixes for a request of class cls
@@ -74,7 +88,7 @@ Start == "start"
 Bad   == "bad"
 Accepting == {"exited", "answered"}
 
-\* which flavour of completion the contract allows
+\* which flavour of completion the contract allows (whatever the layer the error comes from)
 ComplOK(e, cls) ==
     CASE cls.outcome = "ok"                  -> e = "complete"
       [] cls.outcome = "err" /\ cls.errsig   -> e = "complete-err"
@@ -133,7 +147,7 @@ CONSTANTS
               \* the rule leaves once the other inbound traffic of the process is subtracted: 0 = violated whatever the
               \* adapter does (others hold the gauge at the threshold; InboundQPS < 0), -1 = no system rule loaded
     Mut       \* "none" | "no-defer" | "handler-when-blocked" | "double-exit" | "no-trace" | "no-fallback"
-              \* | "server-as-outbound" | "client-as-inbound"
+              \* | "server-as-outbound" | "client-as-inbound" | "trace-in-node-wrapper"
 
 VARIABLES
     pc,       \* request -> program counter of the adapter code
@@ -147,10 +161,14 @@ VARIABLES
 vars == <<pc, cls, log, conc, limit, inb, kind>>
 Reqs == 1..K
 
+\* layers are explored where they can make a difference: a client-side entry point that wraps a (layered) downstream call
+\* whose error the framework hands back to the adapter
+Explored(x) == LayerOK(x) /\ (x.layer # "node" => (x.side = "client" /\ x.wraps /\ x.errsig))
+
 Init ==
     /\ pc = [r \in Reqs |-> "ask"]
-    /\ cls \in [Reqs -> { [wraps |-> c.wraps, errsig |-> c.errsig, fb |-> c.fb, side |-> c.side, outcome |-> o, flow |-> FALSE, sys |-> "none"] :
-                          c \in Classes, o \in Outcomes }]
+    /\ cls \in [Reqs -> { x \in { [wraps |-> c.wraps, errsig |-> c.errsig, fb |-> c.fb, side |-> c.side, outcome |-> ol[1], layer |-> ol[2],
+                                   flow |-> FALSE, sys |-> "none"] : c \in Classes, ol \in Outcomes \X Layers } : Explored(x) }]
     /\ log = [r \in Reqs |-> << >>]
     /\ conc = 0
     /\ limit \in Limits
@@ -200,9 +218,12 @@ Call(r) ==
     /\ UNCHANGED <<cls, conc, limit, inb, kind>>
 
 \* if err != nil { TraceError }; (deferred) entry.Exit()
+\* err is what the wrapped call RETURNED, whatever layer produced it; the broken design "trace-in-node-wrapper" hands the
+\* tracing to a hook the framework runs around the per-node call only, so errors of the other layers never reach it
 Exit(r) ==
     /\ pc[r] = "exit"
-    /\ LET traced == cls[r].wraps /\ cls[r].outcome = "err" /\ cls[r].errsig /\ Mut # "no-trace" IN
+    /\ LET traced == /\ cls[r].wraps /\ cls[r].outcome = "err" /\ cls[r].errsig /\ Mut # "no-trace"
+                     /\ (Mut = "trace-in-node-wrapper" => cls[r].layer = "node") IN
        Emit(r, IF traced THEN "complete-err" ELSE "complete")
     /\ conc' = conc - 1
     /\ inb' = inb - (IF AsksInbound(r) THEN 1 ELSE 0)
@@ -222,7 +243,7 @@ TypeOK == /\ \A r \in Reqs : pc[r] \in {"ask", "blocked", "call", "exit", "done"
           /\ conc \in -K..K
           /\ inb \in -K..K
           /\ limit \in Limits
-          /\ \A r \in Reqs : kind[r] \in {"", "flow", "system"} /\ cls[r].sys \in SysStates /\ cls[r].side \in Sides
+          /\ \A r \in Reqs : kind[r] \in {"", "flow", "system"} /\ cls[r].sys \in SysStates /\ cls[r].side \in Sides /\ LayerOK(cls[r])
 \* every finished request honoured the contract (decision and block type included); every running one can still do so
 ContractHonoured == \A r \in Reqs : /\ IF Done(r) THEN Accepts(log[r], cls[r]) ELSE Viable(log[r], cls[r])
                                     /\ Asked(r) => KindOK(log[r], kind[r], cls[r])
